@@ -397,6 +397,42 @@ func cliCalc(c *cliEnv, r *rand.Rand, cw *CalcWriter, prop, label string, maxT i
 			cw.emit(ev)
 		}
 	case "C14":
+		if r.Intn(4) == 0 {
+			// matrix --avg over a collection on the same taxa
+			nt := 4 + r.Intn(maxi(1, maxT-4))
+			names := tipNamesN("t", nt)
+			k := 1 + r.Intn(4)
+			var ss []*STree
+			for i := 0; i < k; i++ {
+				ss = append(ss, genSTreeOn(r, &gp, names, r.Intn(2) == 0, 0, 1))
+			}
+			in := treesFile(c, "coll.nw", ss)
+			metric := []string{"brlen", "boot", "none"}[r.Intn(3)]
+			out, rc, hung := c.run("matrix", "-i", in, "-m", metric, "--avg")
+			ev := &CEvent{Kind: "AvgMatrix", Prop: "C14", Case: label, Trees: projTexts(ss, ProjOpt{Rank: true}),
+				Args: map[string]interface{}{"metric": metric, "cli": true}, Hang: hung}
+			if !hung && rc == 0 {
+				lines := strings.Split(strings.TrimSpace(out), "\n")
+				names := []string{}
+				rows := [][]int64{}
+				for _, ln := range lines[1:] {
+					f := fields(ln)
+					names = append(names, f[0])
+					row := []int64{}
+					for _, x := range f[1:] {
+						v, _ := strconv.ParseFloat(x, 64)
+						row = append(row, e4(v))
+					}
+					rows = append(rows, row)
+				}
+				ev.Ok = true
+				ev.Res = map[string]interface{}{"names": names, "m": rows}
+			} else {
+				ev.Err = fmt.Sprintf("rc=%d", rc)
+			}
+			cw.emit(ev)
+			return
+		}
 		s := genSTree(r, &gp)
 		in := treesFile(c, "t.nw", []*STree{s})
 		if r.Intn(2) == 0 {
@@ -550,6 +586,29 @@ func cliCalc(c *cliEnv, r *rand.Rand, cw *CalcWriter, prop, label string, maxT i
 		cw.w.WriteByte('\n')
 		cw.n++
 	case "C16":
+		if r.Intn(8) == 0 {
+			rooted := r.Intn(2) == 0
+			n := 3 + r.Intn(3)
+			args := []string{"generate", "topologies", "-l", strconv.Itoa(n)}
+			if rooted {
+				args = append(args, "-r")
+			}
+			out, rc, hung := c.run(args...)
+			ev := &CEvent{Kind: "Topologies", Prop: "C16", Case: label, Args: map[string]interface{}{"gen": "topologies", "n": n, "rooted": rooted, "cli": true}, Hang: hung}
+			if !hung && rc == 0 {
+				ts, err := parseNewickLines(out)
+				if err == nil {
+					ev.Ok = true
+					ev.Trees = projAll(ts, ProjOpt{})
+				} else {
+					ev.Err = err.Error()
+				}
+			} else {
+				ev.Err = fmt.Sprintf("rc=%d", rc)
+			}
+			cw.emit(ev)
+			return
+		}
 		gen := []string{"uniform", "yule", "caterpillar", "balanced", "star"}[r.Intn(5)]
 		rooted := r.Intn(2) == 0
 		n := 3 + r.Intn(maxi(1, maxT))
